@@ -98,7 +98,10 @@ type Client struct {
 	// SpecWriteBumpsGeneration: like the API server, a successful non-dry-run Update or Patch touching spec increments
 	// metadata.generation, and the client writes the response back into the object that was passed in.
 	SpecWriteBumpsGeneration bool
-	scheme                   *runtime.Scheme
+	// PatchAnswersStored: a successful merge patch is answered with the stored object after the patch - the client
+	// decodes that answer into the object handed to Patch, replacing whatever the caller had changed in memory only.
+	PatchAnswersStored bool
+	scheme             *runtime.Scheme
 }
 
 func NewClient() *Client {
@@ -184,7 +187,33 @@ func (c *Client) Patch(_ context.Context, obj client.Object, patch client.Patch,
 	if err == nil && c.SpecWriteBumpsGeneration && len(po.DryRun) == 0 && patchTouchesSpec(data) {
 		obj.SetGeneration(obj.GetGeneration() + 1)
 	}
+	if err == nil && c.PatchAnswersStored && len(po.DryRun) == 0 && patch.Type() == types.MergePatchType {
+		if stored, ok := c.Objs[KeyOf(obj)]; ok {
+			var body map[string]interface{}
+			if e := json.Unmarshal(data, &body); e == nil {
+				mergeInto(stored, body)
+				FromMap(stored, obj)
+			}
+		}
+	}
 	return err
+}
+
+// mergeInto applies an RFC 7386 merge patch to a JSON object in place.
+func mergeInto(dst, patch map[string]interface{}) {
+	for k, v := range patch {
+		if v == nil {
+			delete(dst, k)
+			continue
+		}
+		pm, isMap := v.(map[string]interface{})
+		dm, dstIsMap := dst[k].(map[string]interface{})
+		if isMap && dstIsMap {
+			mergeInto(dm, pm)
+			continue
+		}
+		dst[k] = v
+	}
 }
 
 func patchTouchesSpec(data []byte) bool {
